@@ -5,8 +5,9 @@
    np.genfromtxt(lines, delimiter=widths, autostrip=True, converters=..., dtype=..., usecols=...) is modelled as:
    every line is cut at the first comment character (numpy default comments='#'; quirk [q_hash]), sliced at the start
    columns ([0]+starts+[limit], differences = widths), every slice stripped, then converted per column with
-   numpy's "loose" rule: a converter that raises ValueError yields the column default (nan, -1, converter('0') or
-   None) - this is how "00:000:00000" becomes None ("open").
+   numpy's "loose" rule: a converter that raises ValueError yields the default of the column's dtype (nan for f8 -
+   also with a user converter, StringConverter.update keeps it -, -1 for i8, None for object columns) - this is how
+   "00:000:00000" becomes None ("open").
 
    Quirks (all off = specification):
      q_hash     '#' starts a comment inside data lines (genfromtxt default)
@@ -185,7 +186,7 @@ Definition convert (f : field) (txt : string) : cell :=
   | KNone, TInt => match parse_int txt with Some z => CInt z | None => CInt (-1) end
   | KEpoch, TObj => CTime (convert_epoch txt)
   | KYyyy, TObj => CTime (convert_yyyy txt)
-  | KExponent, TFloat => match convert_exponent txt with Some (sg, q) => CNum sg q | None => CNum false 0 end
+  | KExponent, TFloat => match convert_exponent txt with Some (sg, q) => CNum sg q | None => CNaN end
   | KDms2deg, TFloat => match convert_dms txt with Some q => CDeg q | None => CNaN end
   | KTuple, TObj => CWords (split_ws txt)
   | _, _ => CUnsupported
@@ -396,10 +397,14 @@ Definition rows_ok (exp : list (list cell)) (obs : list (list ocell)) : bool := 
      gen   the texts the writer put into the format's columns, one list per row (the property's oracle),
      obs   rows midgard returned.
    verdict 0: obs = converted generating texts (the oracle) and = the model without quirks;
-           2 / 3: obs differs from the oracle but is what the model predicts with exactly q_hash / q_limit81 on,
+           2 / 3: obs differs from the oracle and from the quirk-free model but is what the model predicts with exactly
+           q_hash / q_limit81 on,
            4: ... with all quirks on;  9: oracle ok but the quirk-free model disagrees (model out of date);
            1: unexplained *)
-Definition gen_rows (t : table) (gen : list (list string)) : list (list cell) := map (convert_row t) gen.
+(* the oracle does not apply the table's U<n> truncation: the whole text of the format's columns must come back *)
+Definition untruncated (f : field) : field :=
+  match f_dtype f with TText _ => mkField (f_name f) (f_start f) (TText 100000) (f_conv f) | _ => f end.
+Definition gen_rows (t : table) (gen : list (list string)) : list (list cell) := map (convert_row (map untruncated t)) gen.
 
 Definition model_rows (q : quirks) (tms : bool) (t : table) (wanted : list string) (marker : string) (file : list string)
   : option (list (list cell)) :=
@@ -416,6 +421,7 @@ Definition check_rows (tms : bool) (t : table) (wanted : list string) (marker : 
   let oracle := rows_ok (gen_rows t gen) obs in
   let m q := opt_rows_ok (model_rows q tms t wanted marker file) obs in
   if oracle then (if m all_off then 0 else 9)%Z
+  else if m all_off then 1%Z          (* the code does what its table says, but that is not the format's columns *)
   else if m (mkQ true false false false) then 2%Z
   else if m (mkQ false true false false) then 3%Z
   else if m as_built then 4%Z
@@ -477,6 +483,7 @@ Definition check_matrix (t : table) (wanted : list string) (marker : string) (fi
   let oracle := match oracle_matrix lower gen with Some M => matrix_ok n M obs | None => false end in
   let m q := match model_matrix q t wanted marker file with Some (_, M) => matrix_ok n M obs | None => false end in
   if oracle then (if m all_off then 0 else 9)%Z
+  else if m all_off then 1%Z
   else if m (mkQ false false true false) then 5%Z
   else if m as_built then 4%Z
   else 1%Z.
